@@ -15,7 +15,7 @@ from) — the code after fix e2abf38), `resolveCall`, `exchange`.
   disabled, another instance sharing key and configuration).
 * `apply_preserves_inv`, `reachable_inv`: `Inv` holds after ANY history of commands (inits,
   honest and forged continuations on any instances with independent caches of any size, seal
-  events, any clock values — the clock is an argument of each request and need not be monotone).
+  events, run-time `SetTokenTTL` / `SetCallStateCacheEntries` reconfiguration, any clock values — the clock is an argument of each request and need not be monotone).
 -/
 namespace Vgi.Props.C15
 open Vgi Vgi.Token Vgi.Props.C12 Vgi.Props.C13
@@ -676,6 +676,13 @@ theorem applySticky_inv (w : World) (op : StickyOp) (iname : String) (who : Iden
       · exact hi
       · exact inv_update hi w.sealed hi.1 (fun r hr => hr) iname _ (by rw [(hopen _).1, (hopen _).2.1, (hopen _).2.2]; exact hc)
 
+theorem applyReconf_inv (w : World) (n : String) (f : Inst → Inst) (hi : Inv w) :
+    Inv (applyReconf w n f).1 := by
+  unfold applyReconf
+  split
+  · exact hi
+  · exact inv_update hi w.sealed hi.1 (fun r hr => hr) n _ (by intro e he; cases he)
+
 /-- **apply_preserves_inv**: every command — `/init`, honest or forged continuation on any
 instance at any clock value, seal event, sticky operation, (re)configuration of an instance —
 keeps the invariant. -/
@@ -684,6 +691,8 @@ theorem apply_preserves_inv (w : World) (c : Cmd) (hi : Inv w) : Inv (apply w c)
   | inst name i =>
     exact inv_update hi w.sealed hi.1 (fun r hr => hr) name _ (by intro e he; cases he)
   | query a => exact hi
+  | setTtl name ttl => simp only [apply]; exact applyReconf_inv w name _ hi
+  | setCache name max => simp only [apply]; exact applyReconf_inv w name _ hi
   | init iname who method limit sess now env => exact applyInit_inv w iname who method limit sess now env hi
   | cont iname req env => exact applyCont_inv w iname req env hi
   | «seal» iname aad session tok pt => exact applySeal_inv w iname aad session tok pt hi
